@@ -618,9 +618,15 @@ class Interp:
     def operand(self, o, frame):
         k = o[0]
         if k == 'copy':
-            return dcopy(self.place_ref(o[1], frame).get())
+            v = self.place_ref(o[1], frame).get()
+            if type(v) is Poison:
+                raise Unsupported(v.reason)
+            return dcopy(v)
         if k == 'move':
-            return self.place_ref(o[1], frame).get()
+            v = self.place_ref(o[1], frame).get()
+            if type(v) is Poison:
+                raise Unsupported(v.reason)
+            return v
         if k == 'const':
             return self.const(o[1])
         if k == 'fnname':
@@ -836,6 +842,10 @@ class Interp:
             if kind == 'IntToInt':
                 return self.int_cast(v, ty)
             if kind in ('PointerCoercion', 'Transmute', 'PtrToPtr', 'Subtype'):
+                if kind == 'Transmute' and isinstance(v, Agg) and v.name == 'NonNull' and ty.strip().startswith('*'):
+                    return v.fields[0]
+                if kind == 'Transmute' and isinstance(v, RefV) and ty.strip() in ('usize', 'isize'):
+                    raise Unsupported('pointer to integer transmute')
                 if isinstance(v, RefV) and 'Unsize' in rv[4]:
                     tv = v.get()
                     if isinstance(tv, Agg) and tv.kind == 'array':
@@ -1016,11 +1026,15 @@ class Interp:
                     if s[0] == 'assign':
                         if s[2][0] == 'closure' and self._closure_short(s[2]):
                             s = self._fix_closure_operands(b, bb, s)
-                        v = self.rvalue(s[2], frame)
                         pl = s[1]
                         if pl[0] == 'local':
+                            try:
+                                v = self.rvalue(s[2], frame)
+                            except Unsupported as u:
+                                v = Poison(str(u))
                             frame[pl[1]] = v
                         else:
+                            v = self.rvalue(s[2], frame)
                             self.place_ref(pl, frame).set(v)
                     elif s[0] == 'setdisc':
                         raise Unsupported('SetDiscriminant')
@@ -1077,6 +1091,9 @@ class Interp:
                             self.place_ref(pl, frame).set(r)
                     bb = term[4]; continue
                 if k == 'assert':
+                    if term[3].startswith(('misaligned pointer dereference', 'null pointer dereference')):
+                        # rustc's debug checks on raw-pointer dereferences: references of this memory model are always valid and aligned
+                        bb = term[4]; continue
                     v = self.operand(term[2], frame); neg = term[1]
                     if isinstance(v, LazyV):
                         v = v.as_bool()
